@@ -117,6 +117,10 @@ pub struct RecorderSpec {
     /// kind (and character), only the frame number advancing
     #[serde(default)]
     pub idle: bool,
+    /// the per-port extension slots (UCF toggles, name tag, netplay name / code / UID) of UNOCCUPIED ports
+    /// hold arbitrary bytes (no exposed field depends on them)
+    #[serde(default)]
+    pub empty_garbage: bool,
 }
 
 #[derive(Serialize, Deserialize, Clone, Debug, PartialEq)]
